@@ -19,7 +19,7 @@ READY = {
  "C02": ("proof", "Tokenizer HedString.split_hed_string proved for all strings (tiling, span characters, maximal trimmed runs) with an "
          "inductive invariant; parenthesis-mismatch reporting proved against balanced(). Tree construction (split_into_groups) and the "
          "print/re-parse round trip: bounded, exhaustive over all strings up to length 6/8 over the delimiter alphabet." + BND,
-         "array encoding of strings (code points); `is` on 1-char strings as ==; HedTag/HedGroup constructors not verified (bounded only)"),
+         "array encoding of strings (code points); `is` on 1-char strings as ==; HedGroup.__init__ under contract (adopts its contents, y_w11); HedTag constructor not verified (bounded only)"),
  "C03": ("proof", "Left-to-right resolution (_find_tag_entry/_find_tag_subfunction/_validate_remaining_terms) and suffix-form registration (_get_tag_forms) proved against the abstract view tag_view: deepest known boundary prefix, remainder verbatim, '#' child switch, every extension term checked; prefix extraction; a tag is identified with the schema handed in. Canonical-form round trips over every tag of every bundled schema, conversion history across schemas: bounded (exhaustive in thorough tier)." + BND,
          'casefold uninterpreted and assumed length-preserving on the resolved text; tag section trusted to hold exactly the registered forms (loaders not verified); str.split modelled by its exact field characterisation'),
  "C04": ("proof", "Relational property. Proved: tag equality HedTag.__eq__ is exactly 'same object, or canonical short forms equal ignoring case, or "
@@ -30,9 +30,9 @@ READY = {
          "whole-string verdict equality: bounded workload (all trees <= 3-4 leaves, all orderings/spellings/blank rewrites)." + BND,
          "casefold uninterpreted; HedTag model (short_tag/org_tag as fields); canonical sort (HedGroup.sorted) bounded only"),
  "C05": ("proof", 'Deductive kernel: the refusal to save a multi-library merge (raises before anything is written, ghost output counter), the selection table deciding which entries/attributes are written (_should_skip, _attribute_disallowed, flags set by process_schema) and the independence of the writer loops over unit classes / section entries (dataflow obligations) are proved. The file round trips themselves run through ElementTree/pandas and are decided by the bounded workload (every bundled schema x 3 formats x merged/unmerged, generated edits, independent XML walk).' + BND,
-         'writers/readers (schema2xml/wiki/df, *2schema) not under contract; output methods modelled as ghost effects'),
+         'writers/readers (schema2xml/wiki/df, *2schema) under contract only in their plain-Python parts (line/attribute parsing, per-entry loops, header output, inLibrary refusal, rooted-tag re-creation: x_w5, x_w9, y_w14); their ElementTree / pandas parts are bounded only; output methods modelled as ghost effects'),
  "C06": ("proof", 'Cell handlers (_category_handler, _value_handler) proved from the property text (n/a and empty cells are absent, listed keys select their entry, template filled); reset_column_mapper keeps the sidecar used for references and for transformers the same object. Splicing (re.sub), pandas transforms and the frame of assemble(): bounded workload against an oracle written from the property.' + BND,
-         'str.replace uninterpreted with three sound facts; pandas, re not modelled; ColumnMapper constructor trusted'),
+         'str.replace uninterpreted with three sound facts; pandas, re not modelled; the ColumnMapper constructor is summarised for callers (its real body is proved separately: y_w12)'),
  "C07": ("proof", 'Span remapping for joined row strings proved against joined_offset (induction); error-context stack balanced on every path of validate/_run_checks/_run_onset_checks/_validate_column_structure and, at every site that stamps context onto issues, the ROW context equals the index of the row being processed + row_adj, row_adj = 1 + header, column/string contexts as the property says (ghost context stack); rows judged independently (dataflow); every phase called. Equality with string-level validation, shuffle invariance, totality: bounded workload.' + BND,
          'loops of the pandas-facing functions explored as one arbitrary iteration (sound for the per-iteration ghost clauses); table values opaque'),
  "C08": ("proof", 'Brace scanner proved against braces_ok() for all strings (iff, indices in range); error-context stack balanced and the contexts in force at every stamping site of the five sidecar-validation functions as the property says; placeholder count taken after removing definitions and shrinking expansions; the definition placeholder rule (shared with C09). Totality over all JSON documents to depth 3 and single-fault codes: bounded workload.' + BND,
